@@ -216,7 +216,87 @@ inductive TStep (σ S U C D : Type) where
   | stop (why : AExit) (s : σ) (scratch : S)
   | accept (x : S) (s : σ) (c : C) (uj ub : U) (dist : D) (created : Nat) (done : Bool)
 
+/-- `if (reproject && !c->psi(u_j, *temp)) break;` — `psi` is only asked when `reproject` -/
+def psiIfNeeded (O : AtlasOracle σ S U C D) (need : Bool) (s : σ) (c : C) (u : U) (temp : S) : (Bool × S) × σ :=
+  if need then O.psi s c u else ((true, temp), s)
+
+/-- one pass through the loop body **after the repair of F175**: the validity test no longer looks at
+`scratch` (the previous state) at the top; instead the state about to be stored (`temp`, after the
+optional re-projection, while `scratch` still holds the last stored state) is handed to `isValid`
+right before it is stored.  `from` is validated once, before the loop (`tbGeodesic`). -/
 def tbStep (A : Arith D) (Am : Ambient S D) (O : AtlasOracle σ S U C D) (P : AtlasParams D)
+    (isFin : D → Bool) (interpolate : Bool) (frm to : S) (distMax : D) (s : σ) (c : C) (uj ub : U)
+    (scratch : S) (dist : D) (created : Nat) : TStep σ S U C D :=
+  -- u_j += delta_ * (u_b - u_j).normalized();  c->phi(u_j, *temp);
+  let a := O.advance s uj ub P.delta
+  let f := O.phi a.2 c a.1
+  let temp := f.1
+  let step := Am.dist temp scratch
+  if A.lt step A.eps then .stop .stalled f.2 scratch else
+  let dist' := A.add dist step
+  if A.lt distMax (Am.dist temp frm) then .stop .leftBall f.2 scratch else
+  if isFin dist' = false then .stop .nonFinite f.2 scratch else
+  if A.lt distMax dist' then .stop .wandered f.2 scratch else
+  if P.maxCharts < created then .stop .chartLimit f.2 scratch else
+  let d1 := O.uClose f.2 ub a.1
+  -- `reproject = done || !c->inPolytope(u_j) || constraint_->distance(*temp) > epsilon_`
+  let need := tbNeedsProjection A O P d1.1 d1.2 c a.1 temp
+  -- `if (reproject && !c->psi(u_j, *temp)) break;`
+  let p := psiIfNeeded O need.1 need.2 c a.1 temp
+  if p.1.1 = false then .stop .psiFail p.2 scratch else
+  let x := p.1.2
+  -- `if (!(interpolate || svc->isValid(temp))) break;` — the state about to be stored
+  let v := validOrSkip O interpolate p.2 x
+  if v.1 = false then .stop .invalid v.2 scratch else
+  if need.1 then
+    let g := O.getChart v.2 x true
+    match g.1.1 with
+    | none => .stop .singular g.2 x
+    | some c' =>
+      let i1 := O.psiInv g.2 c' x
+      let i2 := O.psiInv i1.2 c' to
+      let d2 := O.uClose i2.2 i2.1 i1.1
+      .accept x d2.2 c' i1.1 i2.1 dist' (created + (if g.1.2 then 1 else 0)) d2.1
+  else .accept x v.2 c a.1 ub dist' created d1.1
+
+def tbLoop (A : Arith D) (Am : Ambient S D) (O : AtlasOracle σ S U C D) (P : AtlasParams D)
+    (isFin : D → Bool) (interpolate : Bool) (frm to : S) (distMax : D) :
+    Nat → σ → C → U → U → S → D → Nat → ALoopOut σ S
+  | 0, s, _, _, _, _, _, _ => ⟨.fuel, false, [], s⟩
+  | k + 1, s, c, uj, ub, scratch, dist, created =>
+    match tbStep A Am O P isFin interpolate frm to distMax s c uj ub scratch dist created with
+    -- `const bool ret = distance(to, scratch) <= delta_;` whatever ended the loop
+    | .stop why s' scratch' => ⟨why, A.le (Am.dist to scratch') P.delta, [], s'⟩
+    | .accept x s' c' uj' ub' dist' created' done =>
+      if done then ⟨.reached, A.le (Am.dist to x) P.delta, [x], s'⟩
+      else
+        let r := tbLoop A Am O P isFin interpolate frm to distMax k s' c' uj' ub' x dist' created'
+        { r with states := x :: r.states }
+
+def tbGeodesic (A : Arith D) (Am : Ambient S D) (O : AtlasOracle σ S U C D) (P : AtlasParams D)
+    (isFin : D → Bool) (fuel : Nat) (s : σ) (frm to : S) (interpolate : Bool) : AGeoOut σ S :=
+  let a := O.isSat s frm
+  if a.1 = false then ⟨.notOnManifold, false, none, a.2⟩ else
+  let g := O.getChart a.2 frm false
+  match g.1.1 with
+  | none => ⟨.noChart, false, none, g.2⟩
+  | some c =>
+    let distTo := Am.dist frm to
+    if A.le distTo P.delta then ⟨.already, true, some [frm], g.2⟩ else
+    let i1 := O.psiInv g.2 c frm
+    let i2 := O.psiInv i1.2 c to
+    -- `if (!(interpolate || svc->isValid(from))) return false;` (the list already holds `from`)
+    let v := validOrSkip O interpolate i2.2 frm
+    if v.1 = false then ⟨.fromInvalid, false, some [frm], v.2⟩ else
+    let r := tbLoop A Am O P isFin interpolate frm to (A.mul P.lambda distTo) fuel v.2 c i1.1 i2.1 frm
+      A.zero 0
+    ⟨r.exit, r.ok, some (frm :: r.states), r.st⟩
+
+/-! #### before the repair of F175 (kept for the witness `tb_geodesic_old_last_state_unvalidated`)
+the loop validates `scratch`, the state stored by the *previous* iteration, never the state it is
+about to store -/
+
+def tbStepOld (A : Arith D) (Am : Ambient S D) (O : AtlasOracle σ S U C D) (P : AtlasParams D)
     (isFin : D → Bool) (interpolate : Bool) (frm to : S) (distMax : D) (s : σ) (c : C) (uj ub : U)
     (scratch : S) (dist : D) (created : Nat) : TStep σ S U C D :=
   -- u_j += delta_ * (u_b - u_j).normalized();  c->phi(u_j, *temp);
@@ -250,21 +330,21 @@ def tbStep (A : Arith D) (Am : Ambient S D) (O : AtlasOracle σ S U C D) (P : At
       .accept x d2.2 c' i1.1 i2.1 dist' (created + (if g.1.2 then 1 else 0)) d2.1
   else .accept temp need.2 c a.1 ub dist' created d1.1
 
-def tbLoop (A : Arith D) (Am : Ambient S D) (O : AtlasOracle σ S U C D) (P : AtlasParams D)
+def tbLoopOld (A : Arith D) (Am : Ambient S D) (O : AtlasOracle σ S U C D) (P : AtlasParams D)
     (isFin : D → Bool) (interpolate : Bool) (frm to : S) (distMax : D) :
     Nat → σ → C → U → U → S → D → Nat → ALoopOut σ S
   | 0, s, _, _, _, _, _, _ => ⟨.fuel, false, [], s⟩
   | k + 1, s, c, uj, ub, scratch, dist, created =>
-    match tbStep A Am O P isFin interpolate frm to distMax s c uj ub scratch dist created with
+    match tbStepOld A Am O P isFin interpolate frm to distMax s c uj ub scratch dist created with
     -- `const bool ret = distance(to, scratch) <= delta_;` whatever ended the loop
     | .stop why s' scratch' => ⟨why, A.le (Am.dist to scratch') P.delta, [], s'⟩
     | .accept x s' c' uj' ub' dist' created' done =>
       if done then ⟨.reached, A.le (Am.dist to x) P.delta, [x], s'⟩
       else
-        let r := tbLoop A Am O P isFin interpolate frm to distMax k s' c' uj' ub' x dist' created'
+        let r := tbLoopOld A Am O P isFin interpolate frm to distMax k s' c' uj' ub' x dist' created'
         { r with states := x :: r.states }
 
-def tbGeodesic (A : Arith D) (Am : Ambient S D) (O : AtlasOracle σ S U C D) (P : AtlasParams D)
+def tbGeodesicOld (A : Arith D) (Am : Ambient S D) (O : AtlasOracle σ S U C D) (P : AtlasParams D)
     (isFin : D → Bool) (fuel : Nat) (s : σ) (frm to : S) (interpolate : Bool) : AGeoOut σ S :=
   let a := O.isSat s frm
   if a.1 = false then ⟨.notOnManifold, false, none, a.2⟩ else
@@ -276,7 +356,7 @@ def tbGeodesic (A : Arith D) (Am : Ambient S D) (O : AtlasOracle σ S U C D) (P 
     if A.le distTo P.delta then ⟨.already, true, some [frm], g.2⟩ else
     let i1 := O.psiInv g.2 c frm
     let i2 := O.psiInv i1.2 c to
-    let r := tbLoop A Am O P isFin interpolate frm to (A.mul P.lambda distTo) fuel i2.2 c i1.1 i2.1 frm
+    let r := tbLoopOld A Am O P isFin interpolate frm to (A.mul P.lambda distTo) fuel i2.2 c i1.1 i2.1 frm
       A.zero 0
     ⟨r.exit, r.ok, some (frm :: r.states), r.st⟩
 
@@ -284,6 +364,12 @@ def tbGeo (A : Arith D) (Am : Ambient S D) (O : AtlasOracle σ S U C D) (P : Atl
     (isFin : D → Bool) (fuel : Nat) : Geo σ S :=
   fun s a b i =>
     let r := tbGeodesic A Am O P isFin fuel s a b i
+    (r.ok, r.states.getD [], r.st)
+
+def tbGeoOld (A : Arith D) (Am : Ambient S D) (O : AtlasOracle σ S U C D) (P : AtlasParams D)
+    (isFin : D → Bool) (fuel : Nat) : Geo σ S :=
+  fun s a b i =>
+    let r := tbGeodesicOld A Am O P isFin fuel s a b i
     (r.ok, r.states.getD [], r.st)
 
 /-- `TangentBundleStateSpace::project(state)`; `none` = `chart` was null and is dereferenced. -/
@@ -338,10 +424,14 @@ def tbPick (A : Arith D) (Am : Ambient S D) (O : AtlasOracle σ S U C D) (s : σ
 
 /-- `ConstrainedStateSpace::interpolate` on a TangentBundle space (virtual dispatch to the
 functions above). -/
+def tbInterpolateG (A : Arith D) (Am : Ambient S D) (O : AtlasOracle σ S U C D) (geo : Geo σ S)
+    (s : σ) (frm to : S) (t : D) : Option (S × σ) :=
+  let r := geo s frm to true
+  if r.1 then tbPick A Am O r.2.2 r.2.1 t else some (frm, r.2.2)
+
 def tbInterpolate (A : Arith D) (Am : Ambient S D) (O : AtlasOracle σ S U C D) (P : AtlasParams D)
     (isFin : D → Bool) (fuel : Nat) (s : σ) (frm to : S) (t : D) : Option (S × σ) :=
-  let r := tbGeo A Am O P isFin fuel s frm to true
-  if r.1 then tbPick A Am O r.2.2 r.2.1 t else some (frm, r.2.2)
+  tbInterpolateG A Am O (tbGeo A Am O P isFin fuel) s frm to t
 
 /-- the same before the fix -/
 def tbInterpolateOld (A : Arith D) (Am : Ambient S D) (O : AtlasOracle σ S U C D) (P : AtlasParams D)
